@@ -88,6 +88,8 @@ static SIDE_TABLE: Mutex<Vec<Vec<u8>>> = Mutex::new(Vec::new());
 static SIDE_FIRE: AtomicUsize = AtomicUsize::new(0);
 static SIDE_RESULT: AtomicUsize = AtomicUsize::new(0); // 0 not fired, 1 fired + Ok, 2 fired + Err
 /// op 11: the encoder writes the record's chunks and then returns Err (a record that cannot be rendered to its end)
+static SLOW_NEXT: std::sync::atomic::AtomicBool = std::sync::atomic::AtomicBool::new(false);
+static SLOW_ARMED: std::sync::atomic::AtomicBool = std::sync::atomic::AtomicBool::new(false);
 static FAIL_AFTER: std::sync::atomic::AtomicBool = std::sync::atomic::AtomicBool::new(false);
 static ENC_FAIL: std::sync::atomic::AtomicBool = std::sync::atomic::AtomicBool::new(false);
 
@@ -647,6 +649,32 @@ pub fn run(case: &Val) -> Val {
         calls: Arc::new(AtomicUsize::new(0)),
     };
     let bg = c[1].l()[0].n() == 1 && opt(c[1].l(), 5) == 1;
+    // `background_rotation` build, every 12th case with a burst of four or more concurrent appends: the FIRST rotation of the case
+    // is slow (its first step takes 1.3 s - a big file being compressed, a slow disk), so that the next roll finds a
+    // rotation in flight for longer than any patience a roller might have; it has to wait for it, not skip its own
+    struct HookGuard;
+    impl Drop for HookGuard {
+        fn drop(&mut self) {
+            log4rs::verif_hooks::set_rotate_step(None);
+            SLOW_ARMED.store(false, Ordering::SeqCst);
+            SLOW_NEXT.store(false, Ordering::SeqCst);
+        }
+    }
+    static BG_TURN: AtomicUsize = AtomicUsize::new(0);
+    let big_burst = c[4].l().iter().any(|o| o.l()[0].n() == 2 && o.l()[1].l().iter().map(|t| t.l().len()).sum::<usize>() >= 4);
+    let _hook_guard = if bg && big_burst && BG_TURN.fetch_add(1, Ordering::SeqCst) % 12 == 3 {
+        // (armed at the start of the case's first big burst: the first rotation INSIDE the burst is the slow one)
+        log4rs::verif_hooks::set_rotate_step(Some(Box::new(move |_k, _src, _dst| {
+            if SLOW_NEXT.swap(false, Ordering::SeqCst) {
+                std::thread::sleep(std::time::Duration::from_millis(1300));
+            }
+            Ok(())
+        })));
+        SLOW_ARMED.store(true, Ordering::SeqCst);
+        Some(HookGuard)
+    } else {
+        None
+    };
     let mut old: Option<RollingFileAppender> = None;
     if c[2].l()[0].n() == 1 {
         std::fs::write(ctx.active(), c[2].l()[1].s()).unwrap();
@@ -828,14 +856,23 @@ pub fn run(case: &Val) -> Val {
                 }
                 ctx.order.lock().unwrap().clear();
                 let errs = AtomicUsize::new(0);
+                // the first rotation of this burst takes 1.3 s, and the threads start 120 ms apart: the later ones ask
+                // for their rotation while the slow one has been running for a while
+                let slow = ids.iter().map(|v| v.len()).sum::<usize>() >= 4 && SLOW_ARMED.swap(false, Ordering::SeqCst);
+                if slow {
+                    SLOW_NEXT.store(true, Ordering::SeqCst);
+                }
                 if let Some(a) = &app {
                     let barrier = Barrier::new(ids.len());
                     std::thread::scope(|s| {
-                        for v in &ids {
+                        for (ti, v) in ids.iter().enumerate() {
                             let barrier = &barrier;
                             let errs = &errs;
                             s.spawn(move || {
                                 barrier.wait();
+                                if slow {
+                                    std::thread::sleep(std::time::Duration::from_millis(120 * ti as u64));
+                                }
                                 for id in v {
                                     if !append_id(a, *id) {
                                         errs.fetch_add(1, Ordering::SeqCst);
